@@ -60,7 +60,7 @@ def strat(tier):
         restart = st.builds(lambda M, mon, ci: dict(op="restart", M=M, mon=mon, cfl=ci), st.integers(1, 5), _monitors(kind), cidx)
         return st.builds(lambda L, num, integ, cfl, cfl2, fields, ctor, calls: dict(model=md, flux=fl, mesh=dict(kind="uni", n=n, length=L, x0=0.0), num=num, integ=integ, cfl=cfl, cfl2=cfl2, fields=fields, ctor_mon=ctor, calls=calls),
                          gen.logf(-1, 1), st.sampled_from([dict(name="extrapol1"), dict(name="extrapol3"), dict(name="muscl", limiter="minmod")]),
-                         st.sampled_from(ex + im + ["gear", "gear"]), gen.f(0.1, 0.8), gen.f(0.1, 0.8), _fields(kind), st.booleans(), st.lists(st.one_of(solve, solve, restart), min_size=2, max_size=5))
+                         st.sampled_from(ex + im + ["gear", "gear"]), gen.f(0.1, 0.8), gen.f(0.1, 0.8), _fields(kind), st.booleans(), st.builds(lambda first, rest: [first] + rest, solve, st.lists(st.one_of(solve, solve, restart), min_size=1, max_size=4)))
     return _problem().flatmap(hist)
 
 
@@ -253,6 +253,8 @@ def check(case):
         labels.append("ctor-monitor")
     return dict(nontrivial=bool(ncalls >= 2 and rich >= 1), labels=sorted(set(labels)))
 
+
+REQUIRED_LABELS = ['call_histories/restart', 'call_histories/saves', 'call_histories/repeat', 'call_histories/integ:gear', 'call_histories/cfl-changes-between-calls', 'call_histories/ctor-monitor', 'call_histories/implicit', 'call_histories/model:convection']
 
 SUBCHECKS = [
     SubCheck("call_histories", check, strategy=strat, examples={"quick": 250, "thorough": 1500}, shards={"quick": 10, "thorough": 16}),
